@@ -45,7 +45,7 @@ impl Plugin for ClientSyncPlugin {
             set_client_to_disconnected
                 .run_if(resource_exists::<RenetClient>)
                 .run_if(resource_removed::<NetcodeClientTransport>())
-                .run_if(in_state(ClientState::Connected)),
+                .run_if(not(in_state(ClientState::Disconnected))),
         );
 
         app.add_systems(
